@@ -139,3 +139,5 @@ func (z *zzDisk) checkProtected(tag string, before [][]bool) {
 		zzAssert(zzImplies(i <= z.d.SnapIndx, kept), tag+".block-reclaimed-at-or-below-user-snapshot")
 	}
 }
+
+func zzNewMutex() *sync.Mutex { return &sync.Mutex{} }
